@@ -18,7 +18,7 @@ ANCHORS = ["bitarray.py::BitArray.pack", "bitarray.py::BitArray.unpack", "bitarr
 BITS = [1, 2, 4, 8, 16, 32]
 DTS = ["int8", "int16", "int32", "int64", "uint8", "uint16", "uint32", "uint64", ">i8", ">u8", ">i4", ">u2"]      # also non-native byte order
 FLOOR_TAGS = ["b:%d" % b for b in BITS] + ["len:multiple", "len:multiple+1", "len:multiple-1", "len:<register", "w:1", "w:full", "w:mid", "style:rand", "style:ones", "style:alt",
-                                           "straddle", "twin", "wtype:numpy", "w*b:54..63"]
+                                           "straddle", "twin", "wtype:numpy", "w*b:54..63", "huge"]
 FLOOR_MONITORS = ["c13:unpack", "c13:getint", "c13:getlist", "c13:window", "c13:unpack-again"]
 FP_STRICT = True       # a floating-point event inside the library that the dense computation does not have is a violation (shard.FpMonitor)
 N_RANDOM = {"quick": 24000, "thorough": 200000}
@@ -28,7 +28,50 @@ def mk_case(b, dtype, vals, w, pos, order="uiwlw"):
     return {"b": b, "dtype": dtype, "vals": vals, "w": w, "pos": pos, "order": order}
 
 
+def run_huge(case):
+    """millions of packed values (beyond any internal block size), formula-generated; vectorised oracle"""
+    BA = CTX.lib.BitArray
+    b, n, w = case["b"], case["n"], case["w"]
+    tags = ["b:%d" % b, "huge", "w:mid"]
+    vals = ((np.arange(n, dtype=np.uint64) * np.uint64(2654435761)) >> np.uint64(7)) % np.uint64(2 ** b)
+    arr = vals.astype(case.get("dtype", "uint32"))
+    p = attempt(BA.pack, arr, b)
+    if not p.ok:
+        return violated("BitArray.pack of %d values (b=%d) raised %r" % (n, b, p), tags)
+    ba = p.value
+    CTX.tick("c13:unpack")
+    u = attempt(lambda: np.asarray(ba.unpack()))
+    if not u.ok or u.value.shape != (n,) or not np.array_equal(u.value.astype(np.uint64), vals):
+        k = int(np.flatnonzero(u.value.astype(np.uint64) != vals)[0]) if u.ok and u.value.shape == (n,) else -1
+        return violated("unpack() of %d packed values (b=%d) differs from the input%s" % (n, b, " first at position %d" % k if k >= 0 else ": %r" % (u,)), tags + ["obs:u"])
+    CTX.tick("c13:window", True)
+    exp = np.zeros(n - w + 1, dtype=np.uint64)
+    for j in range(w):
+        exp |= vals[j:n - w + 1 + j] << np.uint64(b * j)
+    o = attempt(lambda: np.asarray(ba.sliding_window(w)))
+    if not o.ok or o.value.shape != exp.shape or not np.array_equal(o.value.astype(np.uint64), exp):
+        k = int(np.flatnonzero(o.value.astype(np.uint64) != exp)[0]) if o.ok and o.value.shape == exp.shape else -1
+        return violated("sliding_window(%d) over %d packed values (b=%d): %s" % (w, n, b, ("first wrong window at position %d: %#x, expected %#x" % (k, int(o.value[k]), int(exp[k]))) if k >= 0 else repr(o)[:200]),
+                        tags + ["obs:w"])
+    CTX.tick("c13:getint")
+    for q in (0, n - 1, 2 ** 22 - 1, 2 ** 22, 2 ** 22 + 1, n // 2):
+        if q < n:
+            g = attempt(lambda: int(ba[q]))
+            if not g.ok or g.value != int(vals[q]):
+                return violated("packed[%d] of %d values gives %s, expected %d" % (q, n, repr(g) if not g.ok else g.value, int(vals[q])), tags + ["obs:i"])
+    CTX.tick("c13:getlist", True)
+    pos = [2 ** 22 - 2, 2 ** 22 - 1, 2 ** 22, 2 ** 22 + 1, 5, n - 1]
+    pos = [q for q in pos if q < n]
+    g = attempt(lambda: np.asarray(ba[pos].unpack()).tolist())
+    if not g.ok or g.value != [int(vals[q]) for q in pos]:
+        return violated("packed[%s].unpack() of %d values gives %s" % (pos, n, repr(g) if not g.ok else g.value), tags + ["obs:l"])
+    CTX.tick("c13:unpack-again")
+    return held(tags, True)
+
+
 def run(case):
+    if case.get("huge"):
+        return run_huge(case)
     BA = CTX.lib.BitArray
     b, vals, w, pos = case["b"], case["vals"], case["w"], case["pos"]
     dt = np.dtype(case["dtype"])
@@ -168,6 +211,8 @@ def gen_case(rng, b, L, w=None, style=None, dtype=None):
 def directed():
     import random
     rng = random.Random(1313)
+    for c in huge_cases():
+        yield c
     for b in BITS:
         per = 64 // b
         for L in [1, 2, per - 1, per, per + 1, 2 * per, 2 * per + 1, 3 * per + 1]:
@@ -195,6 +240,11 @@ def sweep(tier):
                 if tier == "quick" and per > 16 and w not in (1, 2, 3, per // 2, per - 2, per - 1, per) and (w + L) % 5:
                     continue
                 yield gen_case(rng, b, L, w, rng.choice(["rand", "rand", "alt", "ones"]))
+
+
+def huge_cases():
+    for b, w, n in ((8, 3, 2 ** 22 + 100), (2, 5, 2 ** 22 + 37), (16, 4, 2 ** 22 + 3), (8, 8, 2 ** 23 + 9)):
+        yield {"huge": True, "b": b, "w": w, "n": n}
 
 
 def random_case(rng, tier):
